@@ -510,6 +510,17 @@ theorem Memory.getMap_cons (p : Nat × IMap) (m : Memory) (r : Nat) :
 
 theorem Memory.inv_nil : Memory.Inv [] := fun _ => IMap.inv_nil
 
+/-- a concrete memory satisfies the invariant when each stored map does (decidable) -/
+theorem Memory.inv_of_forall {m : Memory} (h : ∀ p ∈ m, IMap.Inv p.2) : m.Inv := by
+  intro r
+  induction m with
+  | nil => exact IMap.inv_nil
+  | cons p m ih =>
+    rw [Memory.getMap_cons]
+    split
+    · exact h p List.mem_cons_self
+    · exact ih (fun q hq => h q (List.mem_cons_of_mem _ hq))
+
 theorem Memory.getMap_map_ne (m : Memory) (r r' : Nat) (im : IMap) (h : r' ≠ r) :
     Memory.getMap (m.map (fun p => if p.1 = r then (r, im) else p)) r' = Memory.getMap m r' := by
   induction m with
